@@ -224,6 +224,20 @@ CLAIMED['C16'] = dict(
        'MLe/MLc > 255, raw CommunicationError through the ISO-DEP S(WTX) exchange. 9 infeasible reports are suppressed one by one with '
        'anchor-checked reasons. One defect repaired (AssertionError from sector_select).',
   technique='class-rooted interprocedural exception-escape analysis with literal-argument guard pruning (ast)')
+CLAIMED['C08'] = dict(
+  category='other',
+  text='For every concrete tag class the exception-escape analysis shows which exception classes can leave nfc.tag.activate, Tag.ndef and the '
+       'NDEF attributes (has_changed, length, capacity, octets, is_readable, is_writeable); anything but IOError of a broken host link -- in '
+       'particular any TagCommandError -- is a failed obligation, reported at the unguarded call inside the NDEF reader. Each _read_ndef_data '
+       'must compare or clamp the tag supplied length against the data area. Every loop of the read path driven by tag data must advance, '
+       'consume a bounded range or leave when a command returns nothing (cycle analysis on the CFG). The number of commands for a given image '
+       'and containment of all octets in the area beyond these necessary conditions are not decided; implicit IndexError sites are partly '
+       'covered (see DESIGN).',
+  design_ref='DESIGN.md section 3 C08',
+  note='Known findings: declared length never compared with the data area (4 tag types), ValueError from read_segment / send_apdu argument '
+       'checks, raw CommunicationError through the ISO-DEP S(WTX) exchange. Four defects repaired (tt1 TLV read, Lite-S MC read, tt4 empty READ '
+       'BINARY loop, tt3 Nbr = 0).',
+  technique='class-rooted exception-escape analysis + loop-cycle progress analysis on the CFG (ast)')
 NA_REASON = {}
 def main():
     checks = []
